@@ -180,6 +180,13 @@ class _Normalise(ast.NodeTransformer):
     def visit_If(self, node):
         # `if <negative test>: B else: A` with a plain else -> `if <positive test>: A else: B`
         self.generic_visit(node)
+        # `if A: (if B: X)` with no else on either level -> `if A and B: X`
+        while (not node.orelse and len(node.body) == 1 and isinstance(node.body[0], ast.If) and not node.body[0].orelse
+               and not any(isinstance(x, ast.NamedExpr) for x in ast.walk(node.test))):
+            inner = node.body[0]
+            vals = (list(node.test.values) if isinstance(node.test, ast.BoolOp) and isinstance(node.test.op, ast.And) else [node.test]) + \
+                   (list(inner.test.values) if isinstance(inner.test, ast.BoolOp) and isinstance(inner.test.op, ast.And) else [inner.test])
+            node = ast.copy_location(ast.If(test=ast.copy_location(ast.BoolOp(op=ast.And(), values=vals), node.test), body=inner.body, orelse=[]), node)
         if node.orelse and not (len(node.orelse) == 1 and isinstance(node.orelse[0], ast.If)):
             pos = self._negative(node.test)
             if pos is not None:
@@ -230,6 +237,26 @@ class _Normalise(ast.NodeTransformer):
                                         return ast.copy_location(val, node)
                                     return node
                             out.append(_Sub().visit(nxt))
+                            done = True
+                    if not done and isinstance(s.value, ast.IfExp) and _is_pure_chain(s.value.body) and _is_pure_chain(s.value.orelse) \
+                            and isinstance(nxt, (ast.Assign, ast.Expr, ast.Return)):
+                        # a callee chosen by a conditional expression for the next statement only:
+                        # `f = A if c else B; x = f(args)`  ->  `if c: x = A(args)  else: x = B(args)`
+                        uses = [x for x in ast.walk(nxt) if isinstance(x, ast.Name) and x.id == nm and isinstance(x.ctx, ast.Load)]
+                        callee = [c for c in ast.walk(nxt) if isinstance(c, ast.Call) and isinstance(c.func, ast.Name) and c.func.id == nm]
+                        tnames = {x.id for x in ast.walk(s.value.test) if isinstance(x, ast.Name)}
+                        rebinds = any(isinstance(x, ast.Name) and isinstance(x.ctx, ast.Store) and x.id in tnames for x in ast.walk(nxt))
+                        if len(uses) == 1 and len(callee) == 1 and not rebinds:
+                            import copy as _copy
+
+                            def _with(val):
+                                class _Sub(ast.NodeTransformer):
+                                    def visit_Name(self, node):
+                                        if node.id == nm and isinstance(node.ctx, ast.Load):
+                                            return ast.copy_location(_copy.deepcopy(val), node)
+                                        return node
+                                return _Sub().visit(_copy.deepcopy(nxt))
+                            out.append(ast.copy_location(ast.If(test=s.value.test, body=[_with(s.value.body)], orelse=[_with(s.value.orelse)]), s))
                             done = True
                     if done:
                         i += 2
